@@ -7,6 +7,7 @@ import (
 	"io"
 	"reflect"
 	"runtime"
+	"strings"
 	"testing"
 
 	"p9verif/evid"
@@ -1256,6 +1257,7 @@ func init() {
 	replayRegistrars = append(replayRegistrars, func() {
 		registerReplay("C03/calls", func(c callCase) *fail { return runCallCase(c, nil) })
 		registerReplay("C03/concurrent-reads", runConcReadCase)
+		registerReplay("C03/close-bind-race", runCloseBindRaceCase)
 		registerReplay("C01/client-server", func(c callCase) *fail { return runCallCase(c, nil) })
 	})
 }
@@ -1266,6 +1268,22 @@ func TestC03(t *testing.T) {
 	h := begin(t, "C03")
 	defer h.Finish()
 	env := h.Env
+	// a handle bound while the Close of another one is in flight
+	for rep := 0; rep < env.Pick(32, 640)/env.NShards+1; rep++ {
+		c := closeBindRaceCase{Native: rep%2 == 0}
+		for i := 0; i < 6; i++ {
+			c.Binds = append(c.Binds, []string{"walk", "walkgetattr", "attach"}[(i+rep+env.Shard)%3])
+		}
+		f := runCloseBindRaceCase(c)
+		h.Case(evid.HashJSON(c)+uint64(rep*64+env.Shard), true, "close-bind-race")
+		if f != nil && strings.HasPrefix(f.Sig, "harness-") {
+			t.Errorf("HARNESS-ERROR %s", f.Msg)
+			continue
+		}
+		if h.report("close-bind-race", f, c) {
+			return
+		}
+	}
 	// two reads in flight on one connection after reads that ended at the end of
 	// the file (the backend returns data together with io.EOF): each caller gets
 	// the bytes its own File returned (engine of C11)
